@@ -278,7 +278,7 @@ def replay(job, cex):
         import contextlib
         buf = io.StringIO()
         with contextlib.redirect_stdout(buf):
-            rs = xdoctest.doctest_module(path, command=cmd, argv=[], verbose=0)
+            rs = xdoctest.doctest_module(path, command=cmd, argv=[], verbose=1 if cmd == 'list' else 0)   # the listing is printed at verbosity >= 1
         out = buf.getvalue()
         bad = []
         if cmd == 'list':
